@@ -341,6 +341,12 @@ func genPkg(t *rapid.T, m *modspec.Mod, idx int, dir, name string, o modOpts, la
 				pkgLevel = append(pkgLevel, n)
 			}
 		}
+		if len(f.Decls) > 0 && rapid.IntRange(0, 5).Draw(t, "linedirective") == 0 {
+			// a //line directive (goyacc, template compilers, cgo): declarations below it report positions in another file
+			at := rapid.IntRange(0, len(f.Decls)-1).Draw(t, "lineat")
+			ld := modspec.Decl{Kind: "raw", Text: fmt.Sprintf("//line zz_grammar_%d.y:%d", fi, rapid.SampledFrom([]int{1, 100, 5000}).Draw(t, "lineno"))}
+			f.Decls = append(f.Decls[:at], append([]modspec.Decl{ld}, f.Decls[at:]...)...)
+		}
 		p.Files = append(p.Files, f)
 	}
 	// local declarations that reuse a name must not inherit a truth entry from the package level
